@@ -75,6 +75,7 @@ type treeOpts struct {
 	special                     bool // allow setuid / setgid / sticky
 	through                     bool // allow a link through another link
 	oddNames                    bool // newline, backslash, invalid UTF-8 ...
+	reuse                       bool // names repeat across levels; a shallow symlink named like a deeper directory (merged-/usr layout)
 }
 
 var fileModes = []uint32{0o644, 0o600, 0o755, 0o700, 0o444, 0o400, 0o666, 0o777, 0o640, 0o604, 0o000, 0o711, 0o222}
@@ -200,8 +201,13 @@ func genDirTree(rng *rand.Rand, o treeOpts) *tree {
 	used := map[string]bool{"": true}
 	symlinks := map[string]bool{}
 	newName := func(dir string) (string, string) {
-		for {
+		for tries := 0; ; tries++ {
 			n, cls := genName(rng, o.oddNames)
+			if o.reuse && tries < 4 && len(t.Entries) > 1 && rng.IntN(3) == 0 {
+				// the base name of some other entry, at whatever level it lives
+				e := t.Entries[1+rng.IntN(len(t.Entries)-1)]
+				n, cls = path.Base(e.Rel), e.nameCls
+			}
 			rel := joinRel(dir, n)
 			if !used[rel] {
 				used[rel] = true
@@ -210,6 +216,9 @@ func genDirTree(rng *rand.Rand, o treeOpts) *tree {
 		}
 	}
 	nd := rng.IntN(o.maxDirs + 1)
+	if o.reuse && nd < 3 && o.maxDirs >= 3 {
+		nd = 3 + rng.IntN(o.maxDirs-2)
+	}
 	for i := 0; i < nd; i++ {
 		// prefer deep parents so that depth 5 is reached
 		var parent string
@@ -260,9 +269,45 @@ func genDirTree(rng *rand.Rand, o treeOpts) *tree {
 		}
 	}
 	nl := rng.IntN(o.maxLinks + 1)
+	if o.reuse && o.maxLinks > 0 && nl == 0 {
+		nl = 1
+	}
 	for i := 0; i < nl; i++ {
 		parent := dirs[rng.IntN(len(dirs))]
-		rel, cls := newName(parent)
+		var rel, cls, merged string
+		if o.reuse && rng.IntN(3) != 0 {
+			// lib -> usr/lib next to usr/lib/...: a link named like a directory further down
+			var deep, early []string
+			for _, d := range dirs {
+				if depthOf(d) >= 2 {
+					deep = append(deep, d)
+					// walked (and unpacked) before the directory's own content when placed at the root
+					if path.Base(d) < strings.SplitN(d, "/", 2)[0] {
+						early = append(early, d)
+					}
+				}
+			}
+			if len(early) > 0 && rng.IntN(4) != 0 {
+				deep = early
+			}
+			if len(deep) > 0 {
+				d := deep[rng.IntN(len(deep))]
+				at := ""
+				if rng.IntN(3) == 0 { // or at some other shallower level
+					c := dirs[rng.IntN(len(dirs))]
+					if depthOf(c) < depthOf(d)-1 {
+						at = c
+					}
+				}
+				if r := joinRel(at, path.Base(d)); !used[r] {
+					used[r] = true
+					parent, rel, cls, merged = at, r, "reused", d
+				}
+			}
+		}
+		if rel == "" {
+			rel, cls = newName(parent)
+		}
 		var target string
 		all := make([]string, 0, len(t.Entries))
 		for _, e := range t.Entries {
@@ -313,6 +358,11 @@ func genDirTree(rng *rand.Rand, o treeOpts) *tree {
 			r, err := filepath.Rel("/"+parent, "/"+via)
 			if err == nil {
 				target = r + "/" + asciiName(rng, 3)
+			}
+		}
+		if merged != "" && rng.IntN(3) != 0 {
+			if r, err := filepath.Rel("/"+parent, "/"+merged); err == nil {
+				target = r
 			}
 		}
 		// the lexical target must stay inside the tree
@@ -390,6 +440,8 @@ func (t *tree) shape() string {
 
 type treeStats struct {
 	Files, Dirs, Links, Nested, EmptyDirs, EmptyFiles, LongNames, NonASCII, Big, MaxDepth, LongTargets int
+	RepeatedNames                                                                                      int // base names used at more than one place
+	LinkLikeDeeperDir                                                                                  int // symlinks named like a directory at a deeper level whose content is walked after the link
 }
 
 func (t *tree) stats() treeStats {
@@ -402,6 +454,45 @@ func (t *tree) stats() treeStats {
 				d = ""
 			}
 			hasChild[d] = true
+		}
+	}
+	bases := map[string]int{}
+	for _, e := range t.Entries {
+		if e.Rel != "" {
+			bases[path.Base(e.Rel)]++
+		}
+	}
+	for _, n := range bases {
+		if n > 1 {
+			s.RepeatedNames++
+		}
+	}
+	for _, l := range t.Entries {
+		if l.Type != 'l' {
+			continue
+		}
+		ldir := path.Dir(l.Rel)
+		if ldir == "." {
+			ldir = ""
+		}
+		hit := false
+		for _, d := range t.Entries {
+			if d.Type != 'd' || path.Base(d.Rel) != path.Base(l.Rel) || depthOf(d.Rel) <= depthOf(l.Rel) || !hasChild[d.Rel] {
+				continue
+			}
+			// the directory lies below the link's own directory, in a subtree walked after the link
+			if ldir != "" && !strings.HasPrefix(d.Rel, ldir+"/") {
+				continue
+			}
+			rest := strings.TrimPrefix(d.Rel, ldir)
+			rest = strings.TrimPrefix(rest, "/")
+			top := strings.SplitN(rest, "/", 2)[0]
+			if path.Base(l.Rel) < top {
+				hit = true
+			}
+		}
+		if hit {
+			s.LinkLikeDeeperDir++
 		}
 	}
 	for _, e := range t.Entries {
